@@ -775,6 +775,11 @@ def scenario(name, rng, noload=False):
         drop = set(start + k for k in rng.sample(range(0, 60), rng.randint(3, 8))) | {start + 70, start + 71, start + 72}
         m.therm = FaultyTherm(m.therm, drop)
         return m, 3600 * 10
+    if name == 'alzr-beta2':
+        # the second binary impingement-rate formula (it divides by the equilibrium compositions of the row)
+        m = kwnruns.build_binary(x0=rng.uniform(3.5e-3, 5e-3), **small)
+        m.setBetaBinary(2)
+        return m, 3600 * 5
     if name == 'alzr-planar-faults':
         # binary, non-isothermal (the lookup table is rebuilt during the run): the planar-interface request is answered with the
         # 'not stable' sentinel at setup() and/or at later rebuilds - the recorded equilibrium compositions must stay compositions
